@@ -2,67 +2,99 @@ import Chain33Model.Model.C32
 /-! Helper lemmas for C32: the task loop refines the specification acceptor. -/
 namespace C32
 
-/-- simulation relation between the task state and the specification state. -/
-structure R (t : Task) (s : Spec) : Prop where
+/-- simulation relation between the task state and the specification state (`k`: strict mode). -/
+structure R (k : Bool) (t : Task) (s : Spec) : Prop where
   p : s.p = t.persisted
-  pend : s.pending = none
+  pend : k = true → s.pending = none
   md : s.mustDeact = false
   run_dead : t.running = true → s.dead = false
   run_fails : t.running = true → s.fails = t.fails ∧ t.fails < 3
-  run_last : t.running = true → t.persisted ≥ 1 → t.last = t.persisted
+  run_q : t.running = true → s.q = t.last ∨ s.q < 1
   run_active : t.running = true → t.active = true
   stop_dead : t.running = false → s.dead = true
   unreg : t.registered = false → t.persisted = -1 ∧ t.running = false ∧ s.anyPost = false ∧ t.active = false
   act_reg : t.active = true → t.registered = true
+  ap : s.anyPost = false → s.pending = none
 
-/-- closes the ten components of `R` after a step. -/
+/-- closes the components of `R` after a step. -/
 macro "finishR" : tactic =>
   `(tactic| (constructor <;> (try simp_all [spawn]) <;> (try split) <;> (try simp_all) <;> (try omega)))
 
-theorem R_init : R {} {} := by
+theorem R_init (k : Bool) : R k {} {} := by
   constructor <;> simp
 
-theorem accept_post_ok (c : Cfg) (s : Spec) (a b : Int) (hd : s.dead = false) (hp : s.pending = none)
-    (hm : s.mustDeact = false) (hr : 1 ≤ a ∧ a ≤ b ∧ b - a + 1 ≤ (c.maxSeq : Int)) (hs : s.p ≥ 1 → a = s.p + 1) :
-    accept c s (.post a b true) = some { s with fails := 0, pending := some b, anyPost := true } := by
-  have g2 : ¬ (s.p ≥ 1 ∧ a ≠ s.p + 1) := fun ⟨x, y⟩ => y (hs x)
-  simp only [accept, hd, hp, hm, Option.isSome_none, Bool.or_false, Bool.false_eq_true, if_false, hr,
+/-- the guard of `.post` / `.skip` passes. -/
+theorem guard_false (k : Bool) (s : Spec) (hd : s.dead = false) (hm : s.mustDeact = false)
+    (hp : k = true → s.pending = none) : (s.dead || s.mustDeact || (k && s.pending.isSome)) = false := by
+  cases k with
+  | false => simp [hd, hm]
+  | true => simp [hd, hm, hp rfl]
+
+theorem accept_post_ok (c : Cfg) (k : Bool) (s : Spec) (a b : Int) (hd : s.dead = false)
+    (hp : k = true → s.pending = none)
+    (hm : s.mustDeact = false) (hr : 1 ≤ a ∧ a ≤ b ∧ b - a + 1 ≤ (c.maxSeq : Int)) (hs : s.q ≥ 1 → a = s.q + 1) :
+    accept c k s (.post a b true) = some { s with fails := 0, pending := some b, q := b, anyPost := true } := by
+  have g2 : ¬ (s.q ≥ 1 ∧ a ≠ s.q + 1) := fun ⟨x, y⟩ => y (hs x)
+  simp only [accept, guard_false k s hd hm hp, Bool.false_eq_true, if_false, hr,
     and_self, decide_true, Bool.not_true, g2, if_true]
 
-theorem accept_post_fail (c : Cfg) (s : Spec) (a b : Int) (hd : s.dead = false) (hp : s.pending = none)
-    (hm : s.mustDeact = false) (hr : 1 ≤ a ∧ a ≤ b ∧ b - a + 1 ≤ (c.maxSeq : Int)) (hs : s.p ≥ 1 → a = s.p + 1) :
-    accept c s (.post a b false) =
-      if s.fails + 1 ≥ 3 then some { s with fails := s.fails + 1, mustDeact := true, anyPost := true }
-      else some { s with fails := s.fails + 1, anyPost := true } := by
-  have g2 : ¬ (s.p ≥ 1 ∧ a ≠ s.p + 1) := fun ⟨x, y⟩ => y (hs x)
-  simp only [accept, hd, hp, hm, Option.isSome_none, Bool.or_false, Bool.false_eq_true, if_false, hr,
+theorem accept_post_fail (c : Cfg) (k : Bool) (s : Spec) (a b : Int) (hd : s.dead = false)
+    (hp : k = true → s.pending = none)
+    (hm : s.mustDeact = false) (hr : 1 ≤ a ∧ a ≤ b ∧ b - a + 1 ≤ (c.maxSeq : Int)) (hs : s.q ≥ 1 → a = s.q + 1) :
+    accept c k s (.post a b false) =
+      if s.fails + 1 ≥ 3 then some { s with fails := s.fails + 1, pending := none, mustDeact := true, anyPost := true }
+      else some { s with fails := s.fails + 1, pending := none, anyPost := true } := by
+  have g2 : ¬ (s.q ≥ 1 ∧ a ≠ s.q + 1) := fun ⟨x, y⟩ => y (hs x)
+  simp only [accept, guard_false k s hd hm hp, Bool.false_eq_true, if_false, hr,
     and_self, decide_true, Bool.not_true, g2]
 
-theorem sim_step (c : Cfg) (hc : 1 ≤ c.maxSeq) (t : Task) (s : Spec) (i : In) (h : R t s) :
-    ∃ s', acceptAll c s (step c t i).2 = some s' ∧ R (step c t i).1 s' := by
-  obtain ⟨hp, hpend, hmd, hrd, hrf, hrl, hra, hsd, hun, har⟩ := h
+theorem accept_skip (c : Cfg) (k : Bool) (s : Spec) (a b : Int) (hd : s.dead = false)
+    (hp : k = true → s.pending = none)
+    (hm : s.mustDeact = false) (hr : 1 ≤ a ∧ a ≤ b ∧ b - a + 1 ≤ (c.maxSeq : Int)) (hs : s.q ≥ 1 → a = s.q + 1) :
+    accept c k s (.skip a b) = some { s with fails := 0, pending := none, q := b } := by
+  have g2 : ¬ (s.q ≥ 1 ∧ a ≠ s.q + 1) := fun ⟨x, y⟩ => y (hs x)
+  simp only [accept, guard_false k s hd hm hp, Bool.false_eq_true, if_false, hr,
+    and_self, decide_true, Bool.not_true, g2]
+
+theorem accept_started (c : Cfg) (k : Bool) (s : Spec) (hp : k = true → s.pending = none)
+    (hm : s.mustDeact = false) :
+    accept c k s .started = some { s with dead := false, fails := 0, pending := none, q := s.p } := by
+  cases k with
+  | false => simp [accept, hm]
+  | true => simp [accept, hm, hp rfl]
+
+/-- a node restart keeps the relation. -/
+theorem sim_reboot (c : Cfg) (k : Bool) (t : Task) (s : Spec) (h : R k t s) :
+    ∃ s', acceptAll c k s (reboot t).2 = some s' ∧ R k (reboot t).1 s' := by
+  obtain ⟨hp, hpend, hmd, hrd, hrf, hrq, hra, hsd, hun, har, hap⟩ := h
+  simp only [reboot]
+  split
+  · rename_i hact
+    have hreg := har hact
+    refine ⟨{ s with dead := false, fails := 0, pending := none, q := s.p }, ?_, ?_⟩
+    · simp [acceptAll, accept_started c k s hpend hmd]
+    · finishR
+  · rename_i hact
+    have hnr : t.running = false := by
+      cases hr : t.running
+      · rfl
+      · exact absurd (hra hr) hact
+    refine ⟨s, rfl, ?_⟩
+    finishR
+
+theorem sim_step (c : Cfg) (hc : 1 ≤ c.maxSeq) (k : Bool) (t : Task) (s : Spec) (i : In)
+    (hi : k = true → i.noLoss = true) (h : R k t s) :
+    ∃ s', acceptAll c k s (step c t i).2 = some s' ∧ R k (step c t i).1 s' := by
+  have h0 := h
+  obtain ⟨hp, hpend, hmd, hrd, hrf, hrq, hra, hsd, hun, har, hap⟩ := h
   cases i with
   | tick =>
     simp only [step]
     split
     · refine ⟨s, rfl, ?_⟩
       finishR
-    · exact ⟨s, rfl, ⟨hp, hpend, hmd, hrd, hrf, hrl, hra, hsd, hun, har⟩⟩
-  | restart =>
-    simp only [step]
-    split
-    · rename_i hact
-      have hreg := har hact
-      refine ⟨{ s with dead := false, fails := 0 }, ?_, ?_⟩
-      · simp [acceptAll, accept, hpend, hmd]
-      · finishR
-    · rename_i hact
-      have hnr : t.running = false := by
-        cases hr : t.running
-        · rfl
-        · exact absurd (hra hr) hact
-      refine ⟨s, rfl, ?_⟩
-      finishR
+    · exact ⟨s, rfl, h0⟩
+  | restart => exact sim_reboot c k t s h0
   | subscribe resume =>
     simp only [step]
     split
@@ -72,30 +104,37 @@ theorem sim_step (c : Cfg) (hc : 1 ≤ c.maxSeq) (t : Task) (s : Spec) (i : In) 
         refine ⟨s, rfl, ?_⟩
         finishR
       · rename_i hrun
-        refine ⟨{ s with dead := false, fails := 0 }, ?_, ?_⟩
-        · simp [acceptAll, accept, hpend, hmd]
+        refine ⟨{ s with dead := false, fails := 0, pending := none, q := s.p }, ?_, ?_⟩
+        · simp [acceptAll, accept_started c k s hpend hmd]
         · finishR
     · rename_i hreg
       have hreg' : t.registered = false := by simpa using hreg
       obtain ⟨u1, u2, u3, u4⟩ := hun hreg'
       have hdead := hsd u2
+      have hq : s.pending = none := hap u3
       by_cases hres : resume ≥ 1
-      · refine ⟨{ s with p := resume, dead := false, fails := 0 }, ?_, ?_⟩
-        · have hp1 : s.p < 1 := by rw [hp, u1]; decide
-          simp [acceptAll, accept, hres, hpend, hmd, hdead, u3, hp1]
+      · -- the resume point is recorded, then the task starts
+        have hp1 : s.p < 1 := by rw [hp, u1]; decide
+        refine ⟨{ s with p := resume, dead := false, fails := 0, pending := none, q := resume }, ?_, ?_⟩
+        · have e1 : accept c k s (.persisted resume) = some { s with p := resume } := by
+            simp [accept, hq, hdead, u3, hp1, hres, hmd]
+          have hpend' : k = true → ({ s with p := resume } : Spec).pending = none := fun _ => hq
+          have e2 := accept_started c k { s with p := resume } hpend' hmd
+          simp [acceptAll, hres, e1, e2]
         · finishR
-      · refine ⟨{ s with dead := false, fails := 0 }, ?_, ?_⟩
-        · simp [acceptAll, accept, hres, hpend, hmd]
+      · refine ⟨{ s with dead := false, fails := 0, pending := none, q := s.p }, ?_, ?_⟩
+        · simp [acceptAll, hres, accept_started c k s hpend hmd]
         · finishR
-  | seqUpdate latest cut ok =>
+  | seqUpdate latest cut empty ok after =>
     simp only [step]
     split
-    · refine ⟨s, rfl, ⟨hp, hpend, hmd, hrd, hrf, hrl, hra, hsd, hun, har⟩⟩
+    · exact ⟨s, rfl, h0⟩
     · rename_i hrun
       have hrun' : t.running = true := by simpa using hrun
       have hreg : t.registered = true := har (hra hrun')
       obtain ⟨hf1, hf2⟩ := hrf hrun'
       have hdead := hrd hrun'
+      have hq := hrq hrun'
       split
       · refine ⟨s, rfl, ?_⟩
         finishR
@@ -104,47 +143,142 @@ theorem sim_step (c : Cfg) (hc : 1 ≤ c.maxSeq) (t : Task) (s : Spec) (i : In) 
           finishR
         · rename_i hge
           split
-          · rename_i hle
-            -- no resume point: start from the newest (t.last ≤ 0 forces persisted < 1)
-            have hpers : ¬ t.persisted ≥ 1 := by
-              intro hh; have := hrl hrun' hh; omega
+          · -- no resume point: start from the newest (the specification has no cursor yet)
+            rename_i hle
+            have hq' : s.q < 1 := by
+              rcases hq with h1 | h1
+              · omega
+              · exact h1
             refine ⟨s, rfl, ?_⟩
             finishR
           · rename_i hpos
             have hlast : 0 < t.last := by omega
             have hlt : t.last < latest := by omega
-            -- range facts
-            have hn1 : (1 : Int) ≤ max 1 (min (min (c.maxSeq : Int) (latest - t.last)) (cut : Int)) := by omega
-            have hn2 : max 1 (min (min (c.maxSeq : Int) (latest - t.last)) (cut : Int)) ≤ (c.maxSeq : Int) := by
-              have : (1 : Int) ≤ (c.maxSeq : Int) := by exact_mod_cast hc
-              omega
-            have hstart : s.p ≥ 1 → t.last + 1 = s.p + 1 := by
-              intro hh; rw [hp] at hh ⊢; rw [hrl hrun' hh]
-            generalize hN : max 1 (min (min (c.maxSeq : Int) (latest - t.last)) (cut : Int)) = n at hn1 hn2 ⊢
-            have hr : 1 ≤ t.last + 1 ∧ t.last + 1 ≤ t.last + n ∧ t.last + n - (t.last + 1) + 1 ≤ (c.maxSeq : Int) := by
-              omega
+            have hc1 : (1 : Int) ≤ (c.maxSeq : Int) := by exact_mod_cast hc
+            have hstart : s.q ≥ 1 → t.last + 1 = s.q + 1 := by
+              intro hh
+              rcases hq with h1 | h1
+              · rw [h1]
+              · omega
             split
-            · -- acknowledged
-              refine ⟨{ s with p := t.last + n, fails := 0, pending := none, anyPost := true }, ?_, ?_⟩
-              · simp only [acceptAll]
-                rw [accept_post_ok c s _ _ hdead hpend hmd hr hstart]
-                simp [accept]
-              · finishR
-            · split
-              · -- third failure in a row
-                rename_i hthree
-                refine ⟨{ s with fails := 0, mustDeact := false, dead := true, anyPost := true }, ?_, ?_⟩
-                · simp only [acceptAll]
-                  rw [accept_post_fail c s _ _ hdead hpend hmd hr hstart]
-                  have g3 : s.fails + 1 ≥ 3 := by rw [hf1]; exact hthree
-                  simp [g3, accept]
+            · -- no matching data in the range
+              split
+              · refine ⟨{ s with fails := 0, pending := none }, ?_, ?_⟩
+                · simp [acceptAll, accept, guard_false k s hdead hmd hpend]
                 · finishR
-              · rename_i hthree
-                refine ⟨{ s with fails := s.fails + 1, anyPost := true }, ?_, ?_⟩
+              · rename_i hn
+                generalize hN : min (min (c.maxSeq : Int) (latest - t.last)) (cut : Int) = n at hn ⊢
+                have hr : 1 ≤ t.last + 1 ∧ t.last + 1 ≤ t.last + n ∧ t.last + n - (t.last + 1) + 1 ≤ (c.maxSeq : Int) := by
+                  omega
+                refine ⟨{ s with fails := 0, pending := none, q := t.last + n }, ?_, ?_⟩
                 · simp only [acceptAll]
-                  rw [accept_post_fail c s _ _ hdead hpend hmd hr hstart]
-                  have g3 : ¬ s.fails + 1 ≥ 3 := by rw [hf1]; exact hthree
-                  simp [g3]
+                  rw [accept_skip c k s _ _ hdead hpend hmd hr hstart]
                 · finishR
+            · have hn1 : (1 : Int) ≤ max 1 (min (min (c.maxSeq : Int) (latest - t.last)) (cut : Int)) := by omega
+              have hn2 : max 1 (min (min (c.maxSeq : Int) (latest - t.last)) (cut : Int)) ≤ (c.maxSeq : Int) := by
+                omega
+              generalize hN : max 1 (min (min (c.maxSeq : Int) (latest - t.last)) (cut : Int)) = n at hn1 hn2 ⊢
+              have hr : 1 ≤ t.last + 1 ∧ t.last + 1 ≤ t.last + n ∧ t.last + n - (t.last + 1) + 1 ≤ (c.maxSeq : Int) := by
+                omega
+              split
+              · -- acknowledged
+                cases after with
+                | record =>
+                  refine ⟨{ s with p := t.last + n, fails := 0, pending := none, q := t.last + n, anyPost := true }, ?_, ?_⟩
+                  · simp only [acceptAll]
+                    rw [accept_post_ok c k s _ _ hdead hpend hmd hr hstart]
+                    simp [accept, hmd]
+                  · finishR
+                | storeFail =>
+                  have hk : k = false := by
+                    cases k with
+                    | false => rfl
+                    | true => exact absurd (hi rfl) (by simp [In.noLoss])
+                  refine ⟨{ s with fails := 0, pending := some (t.last + n), q := t.last + n, anyPost := true }, ?_, ?_⟩
+                  · simp only [acceptAll]
+                    rw [accept_post_ok c k s _ _ hdead hpend hmd hr hstart]
+                  · subst hk
+                    finishR
+                | crash =>
+                  have hk : k = false := by
+                    cases k with
+                    | false => rfl
+                    | true => exact absurd (hi rfl) (by simp [In.noLoss])
+                  subst hk
+                  -- the acknowledgement is accepted; then the node starts again over the unchanged store
+                  have hact : t.active = true := hra hrun'
+                  refine ⟨{ s with dead := false, fails := 0, pending := none, q := s.p, anyPost := true }, ?_, ?_⟩
+                  · simp only [acceptAll, reboot, hact, if_true]
+                    rw [accept_post_ok c false s _ _ hdead hpend hmd hr hstart]
+                    simp [accept, hmd]
+                  · simp only [reboot, hact, if_true]
+                    finishR
+              · split
+                · -- third failure in a row
+                  rename_i hthree
+                  refine ⟨{ s with fails := 0, pending := none, mustDeact := false, dead := true, anyPost := true }, ?_, ?_⟩
+                  · simp only [acceptAll]
+                    rw [accept_post_fail c k s _ _ hdead hpend hmd hr hstart]
+                    have g3 : s.fails + 1 ≥ 3 := by rw [hf1]; exact hthree
+                    simp [g3, accept]
+                  · finishR
+                · rename_i hthree
+                  refine ⟨{ s with fails := s.fails + 1, pending := none, anyPost := true }, ?_, ?_⟩
+                  · simp only [acceptAll]
+                    rw [accept_post_fail c k s _ _ hdead hpend hmd hr hstart]
+                    have g3 : ¬ s.fails + 1 ≥ 3 := by rw [hf1]; exact hthree
+                    simp [g3]
+                  · finishR
+
+/-! ### histories without empty ranges produce no `.skip` -/
+
+/-- the input does not claim a range without matching data (block / header / tx-result subscriptions). -/
+def In.dense : In → Bool
+  | .seqUpdate _ _ e _ _ => !e
+  | _ => true
+
+theorem noSkip_append (e1 e2 : List Ev) : noSkip (e1 ++ e2) = (noSkip e1 && noSkip e2) := by
+  induction e1 with
+  | nil => simp [noSkip]
+  | cons e es ih => cases e <;> simp [noSkip, ih]
+
+theorem reboot_noSkip (t : Task) : noSkip (reboot t).2 = true := by
+  simp only [reboot]; split <;> simp [noSkip]
+
+theorem step_noSkip (c : Cfg) (t : Task) (i : In) (h : i.dense = true) : noSkip (step c t i).2 = true := by
+  cases i with
+  | tick => simp only [step]; split <;> simp [noSkip]
+  | restart => exact reboot_noSkip t
+  | subscribe r => simp only [step]; split <;> split <;> simp [noSkip]
+  | seqUpdate latest cut empty ok after =>
+    have he : empty = false := by simpa [In.dense] using h
+    subst he
+    simp only [step]
+    split
+    · simp [noSkip]
+    · split
+      · simp [noSkip]
+      · split
+        · simp [noSkip]
+        · split
+          · simp [noSkip]
+          · simp only [Bool.false_eq_true, if_false]
+            split
+            · cases after with
+              | record => simp [noSkip]
+              | storeFail => simp [noSkip]
+              | crash =>
+                have := reboot_noSkip { t with sleep := 0 }
+                simpa [noSkip] using this
+            · split <;> simp [noSkip]
+
+theorem run_noSkip (c : Cfg) (ins : List In) (t : Task) (h : ∀ i ∈ ins, i.dense = true) :
+    noSkip (run c t ins).2 = true := by
+  induction ins generalizing t with
+  | nil => simp [run, noSkip]
+  | cons i is ih =>
+    simp only [run, noSkip_append]
+    rw [step_noSkip c t i (h i (by simp)), ih _ (fun j hj => h j (by simp [hj]))]
+    rfl
 
 end C32
